@@ -93,6 +93,9 @@ def filepathRel (base targ : Text) : Text × Bool :=
   | some r => (r, false)
   | none => ([], true)
 
+/-- `make([]string, n)`: `n` empty strings (`n ≥ 0`: it is a `len`) -/
+def makeTexts (n : Int) : List Text := List.replicate n.toNat []
+
 /-! ## basic facts -/
 
 theorem intRangeAux_length (lo : Int) (n : Nat) : (intRangeAux lo n).length = n := by
